@@ -445,7 +445,7 @@ func TestVerifC26CloseWriteKeepsWriteDeadline(t *testing.T) {
 		if n++; n > 25 && !vfThorough() {
 			return // each case waits for a 150 ms deadline
 		}
-		if n > 200 {
+		if n > 60 {
 			return
 		}
 		run(vf26Parrots[rapid.IntRange(0, len(vf26Parrots)-1).Draw(rt, "parrot")].Name,
